@@ -144,9 +144,13 @@ def make_rules(case):
         if not shared: return [float(x) for x in ls[k]]
         if (u, v, k) not in store: store[(u, v, k)] = [float(x) for x in ls[k]]
         return store[(u, v, k)]
+    dstore = {}
     def joint(u, nbrs):
         rd = rec_fn(u)
-        return {v: trans_fn(u, v, rd) for v in nbrs}, rd
+        d = {v: trans_fn(u, v, rd) for v in nbrs}
+        if not shared: return d, rd
+        key = (u, tuple((repr(v), id(d[v])) for v in d))      # the same rows again -> the same dict object again
+        return dstore.setdefault(key, d), rd
     return rec_fn, trans_fn, joint
 
 
